@@ -150,6 +150,25 @@ def _cli_case(job):
                 res["problems"].append(("unlisted-line-changed:" + rid, "%s listed for lines %r but lines %r changed too" % (rid, sel, outside), {"rule": rid, "lines": sel}))
             elif "case" in rt[rid]["groups"] and sorted(changed) != sel:
                 res["problems"].append(("listed-line-not-fixed:" + rid, "%s listed for lines %r but only %r changed" % (rid, sel, changed), {"rule": rid, "lines": sel}))
+        # (d) several line-local rules listed together, each with all of its lines: what is listed gets repaired
+        multi = sorted(cand)
+        if len(multi) >= 2 and len(res["problems"]) <= 3:
+            pick = sorted(r.sample(multi, min(len(multi), 4)))
+            sel = {rid: sorted(cand[rid]) for rid in pick}
+            json.dump({"fix": {"rule": sel}}, open(fo, "w"))
+            fresh()
+            vsg(["-f", f, "--fix", "--fix_only", fo])
+            got = open(f).read()
+            res["selected"] += 1
+            if len(rstrip_lines(orig)) == len(rstrip_lines(got)):
+                vsg(["-f", f, "-ap", "--json", jf])
+                try:
+                    left = {(v["rule"], int(v["linenumber"])) for fe in json.load(open(jf))["files"] for v in fe["violations"]}
+                except Exception:
+                    left = set()
+                still = sorted((rid, l) for rid in pick for l in sel[rid] if (rid, l) in left)
+                if still:
+                    res["problems"].append(("listed-violation-not-repaired:" + still[0][0], "rules %r listed together with all their lines: %r still reported afterwards" % (pick, still[:4]), {"selection": sel}))
         res["rules_with_candidates"] = len(cand)
     finally:
         shutil.rmtree(d, ignore_errors=True)
